@@ -108,6 +108,41 @@ def cond_truth(c, env, ids, region):
     raise AnalysisBroken('init_dataset: unsupported condition %s' % show(c)[:80])
 
 
+def step_env(e, env, penv, bufs, ids, ptr_off):
+    """update the symbolic environments with one simple statement"""
+    if e['k'] == 'Decl':
+        for d in e['d']:
+            if d.get('arrlen') is not None:
+                bufs[d['id']] = dict(size=d.get('size'), static=d.get('static'), name=d['name'], ln=e.get('ln'))
+            elif 'init' in d:
+                if d.get('ty', '').rstrip('const ').endswith('*') or d.get('ty', '').endswith('*const'):
+                    po = ptr_off(d['init'], env, penv, bufs)
+                    if po is not None:
+                        penv[d['id']] = po
+                        continue
+                try:
+                    env[d['id']] = lin(d['init'], env, ids)
+                except AnalysisBroken:
+                    pass
+        return
+    for x in walk(e):
+        if x['k'] == 'CAssign' and strip_all(x['l'])['k'] == 'Ref' and strip_all(x['l']).get('id') in env:
+            vid = strip_all(x['l'])['id']
+            r = lin(x['r'], env, ids)
+            if x['op'] == '+=':
+                env[vid] = env[vid] + r
+            elif x['op'] == '-=':
+                env[vid] = env[vid] - r
+            else:
+                raise AnalysisBroken('init_dataset: unsupported compound assignment %s' % show(x))
+        elif x['k'] == 'CAssign' and strip_all(x['l'])['k'] == 'Ref' and strip_all(x['l']).get('id') in penv:
+            vid = strip_all(x['l'])['id']
+            r = lin(x['r'], env, ids)
+            penv[vid] = (penv[vid][0], penv[vid][1] + r if x['op'] == '+=' else penv[vid][1] - r)
+        elif x['k'] == 'Assign' and strip_all(x['l'])['k'] == 'Ref' and strip_all(x['l']).get('id') in env:
+            env[strip_all(x['l'])['id']] = lin(x['r'], env, ids)
+
+
 def rule_range(ctx, R, F):
     R.rule('RACE-RANGE', 'randomx_init_dataset(dataset, cache, start, count): for every (count mod 4, count < 4 or not) case every datasetInit call writes items [S, E) with E - S a positive multiple of 4 '
            '(what the compiled initialiser requires), the destination is either a local buffer of at least (E-S) items that is copied to exactly the requested items, or dataset->memory + S*64 '
@@ -125,20 +160,58 @@ def rule_range(ctx, R, F):
     for m in range(4):
         regions.append(dict(name='count=%d' % m, q=(0, 0), m=m, s=(0, dic - 1)))
         regions.append(dict(name='count=4q+%d, q>=1' % m, q=(1, dic // 4), m=m, s=(0, dic - 1)))
-    allpaths = decoder.paths(f['body'])
+    allpaths = decoder.paths(f['body'], record_conds=True)
     checked = 0
+
+    def ptr_off(e, env, penv, bufs):
+        """(base, byte offset Lin) of a pointer expression: base 'DS' = dataset->memory, ('BUF', id) = local buffer"""
+        e = strip_all(e)
+        while e['k'] == 'Cast':
+            e = strip_all(e['e'])
+        if e['k'] == 'Ref' and e.get('id') in bufs:
+            return (('BUF', e['id']), Lin())
+        if e['k'] == 'Ref' and e.get('id') in penv:
+            return penv[e['id']]
+        if e['k'] == 'Mem' and show(e).endswith('->memory') and ref_of_base(e) == ids['ds']:
+            return ('DS', Lin())
+        if e['k'] == 'Bin' and e['op'] == '+':
+            l = ptr_off(e['l'], env, penv, bufs)
+            if l is not None:
+                return (l[0], l[1] + lin(e['r'], env, ids))
+            r = ptr_off(e['r'], env, penv, bufs)
+            if r is not None:
+                return (r[0], r[1] + lin(e['l'], env, ids))
+        if e['k'] == 'Un' and e['op'] == '&':
+            inner = strip_all(e['e'])
+            if inner['k'] == 'Idx':
+                b_ = ptr_off(inner['b'], env, penv, bufs)
+                if b_ is not None:
+                    return (b_[0], b_[1] + lin(inner['i'], env, ids))
+        return None
+
+    def ref_of_base(m):
+        b_ = strip_all(m['b'])
+        return b_.get('id') if b_['k'] == 'Ref' else None
+
     for region in regions:
         feasible = []
         for p in allpaths:
             env = {ids['s']: Lin(s=1), ids['c']: Lin(q=4, m=1)}
+            penv = {}
+            bufs = {}
             ok = True
-            # conditions are evaluated on the entry values (conditions precede the reassignment in source order; verified below)
-            for c, taken in p.conds:
-                t = cond_truth(c, env, ids, region)
-                if t is None:
-                    raise AnalysisBroken('init_dataset: condition %s undecided in region %s' % (show(c), region['name']))
-                if t != taken:
-                    ok = False
+            for e in p.events:
+                if isinstance(e, tuple) and e[0] == 'cond':
+                    t = cond_truth(e[1], env, ids, region)
+                    if t is None:
+                        raise AnalysisBroken('init_dataset: condition %s undecided in region %s' % (show(e[1]), region['name']))
+                    if t != e[2]:
+                        ok = False
+                        break
+                elif isinstance(e, tuple):
+                    raise AnalysisBroken('init_dataset: loop/switch not supported at %s' % loc(e[1], f))
+                else:
+                    step_env(e, env, penv, bufs, ids, ptr_off)
             if ok:
                 feasible.append(p)
         if len(feasible) != 1:
@@ -146,33 +219,19 @@ def rule_range(ctx, R, F):
             continue
         p = feasible[0]
         env = {ids['s']: Lin(s=1), ids['c']: Lin(q=4, m=1)}
+        penv = {}
         bufs = {}
         written = []        # (S, E) on the dataset
         pending = {}        # local buffer id -> (S, E)
         count_here = region['q'][0] * 4 + region['m'] if region['q'] == (0, 0) else None
         for e in p.events:
             if isinstance(e, tuple):
-                raise AnalysisBroken('init_dataset: loop/switch not supported at %s' % loc(e[1], f))
+                continue
             if e['k'] == 'Decl':
                 for d in e['d']:
                     if d.get('arrlen') is not None:
-                        bufs[d['id']] = dict(size=d.get('size'), static=d.get('static'), name=d['name'], ln=e.get('ln'))
                         R.check(not d.get('static') and not d.get('tls'), 'bounce buffer %s is an automatic variable' % d['name'], loc(e, f), expected='stack buffer (per call, per thread)', found='static' if d.get('static') else 'auto')
-                    elif 'init' in d:
-                        try:
-                            env[d['id']] = lin(d['init'], env, ids)
-                        except AnalysisBroken:
-                            pass
-                continue
-            for x in walk(e):
-                if x['k'] == 'CAssign' and strip_all(x['l'])['k'] == 'Ref' and strip_all(x['l']).get('id') in env:
-                    vid = strip_all(x['l'])['id']
-                    r = lin(x['r'], env, ids)
-                    env[vid] = env[vid] + r if x['op'] == '+=' else env[vid] - r if x['op'] == '-=' else None
-                    if env[vid] is None:
-                        raise AnalysisBroken('init_dataset: unsupported compound assignment %s' % show(x))
-                elif x['k'] == 'Assign' and strip_all(x['l'])['k'] == 'Ref' and strip_all(x['l']).get('id') in env:
-                    env[strip_all(x['l'])['id']] = lin(x['r'], env, ids)
+            step_env(e, env, penv, bufs, ids, ptr_off)
             cs = [c for c in calls(e) if 'callee' in c and 'datasetInit' in show(c['callee'])]
             for c in cs:
                 checked += 1
@@ -182,34 +241,38 @@ def rule_range(ctx, R, F):
                 n_lo, n_hi = (E - S).rng(region)
                 multiple4 = (E - S).s == 0 and (E - S).q % 4 == 0 and ((E - S).m * region['m'] + (E - S).k) % 4 == 0
                 R.check(n_lo >= 4 and multiple4, inst + ' item count', loc(c, f), expected='E - S >= 4 and divisible by 4 for every count in the region', found='E - S = %r in [%d, %d]' % (E - S, n_lo, n_hi))
-                R.check(show(a[0]) == show({'k': 'Ref', 'id': ids['cache'], 'n': 'cache'}) or strip_all(a[0]).get('id') == ids['cache'], inst + ' cache argument', loc(c, f), expected='the caller\'s cache', found=show(a[0]))
-                dst = strip_all(a[1])
-                if dst['k'] == 'Ref' and dst.get('id') in bufs:
-                    b = bufs[dst['id']]
-                    R.check(n_hi * cls <= b['size'], inst + ' fits local buffer', loc(c, f), expected='(E-S)*%d <= sizeof(%s)=%d' % (cls, b['name'], b['size']), found=n_hi * cls)
-                    pending[dst['id']] = (S, E)
-                elif dst['k'] == 'Bin' and dst['op'] == '+' and show(dst['l']).endswith('->memory'):
-                    X = lin(dst['r'], env, ids)
-                    R.check(X == S.scale(cls), inst + ' destination matches first item', loc(c, f), expected='dataset->memory + S*%d with S = %r' % (cls, S), found='offset %r' % X)
+                R.check(strip_all(a[0]).get('id') == ids['cache'], inst + ' cache argument', loc(c, f), expected='the caller\'s cache', found=show(a[0]))
+                dst = ptr_off(a[1], env, penv, bufs)
+                if dst is None:
+                    R.violation(inst + ' destination', loc(c, f), expected='local buffer or dataset->memory + S*CacheLineSize', found=show(a[1]))
+                elif dst[0] != 'DS':
+                    b = bufs[dst[0][1]]
+                    R.check(n_hi * cls <= b['size'] and dst[1] == Lin(), inst + ' fits local buffer', loc(c, f), expected='(E-S)*%d <= sizeof(%s)=%d' % (cls, b['name'], b['size']), found=n_hi * cls)
+                    pending[dst[0][1]] = (S, E)
+                else:
+                    X = dst[1]
+                    R.check(X == S.scale(cls), inst + ' destination matches first item', loc(c, f), expected='dataset->memory + S*%d with S = %r' % (cls, S), found='byte offset %r' % X)
                     lo1, _ = (S - Lin(s=1)).rng(region)
                     lo2, _ = (Lin(s=1, q=4, m=1) - E).rng(region)
                     R.check(lo1 >= 0 and lo2 >= 0, inst + ' inside requested range', loc(c, f), expected='start <= S and E <= start + count', found='S - start >= %d, start + count - E >= %d' % (lo1, lo2))
                     written.append((S, E))
-                else:
-                    R.violation(inst + ' destination', loc(c, f), expected='local buffer or dataset->memory + S*CacheLineSize', found=show(a[1]))
             for c in [c for c in calls(e) if c.get('name') == 'memcpy']:
                 a = c['a']
-                src = strip_all(a[1])
-                dst = strip_all(a[0])
                 inst = '%s: memcpy@%s' % (region['name'], c.get('ln'))
-                if src['k'] == 'Ref' and src.get('id') in pending and dst['k'] == 'Bin' and dst['op'] == '+' and show(dst['l']).endswith('->memory'):
-                    X = lin(dst['r'], env, ids)
+                src = ptr_off(a[1], env, penv, bufs)
+                dst = ptr_off(a[0], env, penv, bufs)
+                if src is not None and src[0] != 'DS' and src[0][1] in pending and dst is not None and dst[0] == 'DS' and src[1] == Lin():
                     L = lin(a[2], env, ids)
-                    S, E = pending.pop(src['id'])
-                    okc = X == S.scale(cls) and S == Lin(s=1) and L == Lin(q=4, m=1).scale(cls)
-                    _, lhi = (L - (E - S).scale(cls)).rng(region)
-                    R.check(okc and lhi <= 0, inst, loc(c, f), expected='copies exactly count*%d bytes of items [start, ...) to dataset->memory + start*%d' % (cls, cls), found='offset %r, length %r, buffer holds items [%r, %r)' % (X, L, S, E))
-                    written.append((S, S + Lin(q=4, m=1)))
+                    S, E = pending.pop(src[0][1])
+                    okc = dst[1] == S.scale(cls) and L.s % cls == 0 and L.q % cls == 0 and L.m % cls == 0 and L.k % cls == 0
+                    items = Lin(L.s // cls, L.q // cls, L.m // cls, L.k // cls) if okc else Lin()
+                    _, over = (items - (E - S)).rng(region)
+                    lo1, _ = (S - Lin(s=1)).rng(region)
+                    lo2, _ = (Lin(s=1, q=4, m=1) - (S + items)).rng(region)
+                    R.check(okc and over <= 0 and lo1 >= 0 and lo2 >= 0, inst, loc(c, f), expected='copies whole items of the buffer (which holds items [%r, %r)) to dataset->memory + %r*%d, inside the requested range' % (S, E, S, cls),
+                            found='byte offset %r, length %r' % (dst[1], L))
+                    if okc:
+                        written.append((S, S + items))
                 else:
                     R.violation(inst, loc(c, f), expected='copy from the bounce buffer to the dataset', found=show(c)[:120])
         for bid, (S, E) in pending.items():
@@ -225,7 +288,6 @@ def rule_range(ctx, R, F):
             _, gap_hi = (S - cur).rng(region)
             if gap_hi > 0:
                 cover_ok = False
-            # advance
             lo_adv, _ = (E - cur).rng(region)
             if lo_adv >= 0:
                 cur = E
